@@ -244,7 +244,7 @@ theorem withAttr_frozenF (hX : NoClassDnc X) (hM : MakeSafe n₀ (fun _ => False
 theorem updateAttr_frozenF (hX : NoClassDnc X) (hM : MakeSafe n₀ (fun _ => False) X) (a : Nat)
     (v : Ref) (kw : List (Nat × Ref)) :
     SafeF X i n₀ (updateAttr X (.obj i) a v kw true) (fun r => r = .obj i) := by
-  unfold updateAttr
+  rw [updateAttr_eq_core hX]; unfold updateAttrCore
   refine (getInst_safe _).toF.bind (fun p _ => ?_)
   split
   · exact SafeF.throwPy _
@@ -256,7 +256,7 @@ theorem updateAttr_frozenF (hX : NoClassDnc X) (hM : MakeSafe n₀ (fun _ => Fal
 theorem transformAttr_frozenF (hX : NoClassDnc X) (hM : MakeSafe n₀ (fun _ => False) X) (a : Nat)
     (f : Option Cb) (kwf : List (Nat × Cb)) :
     SafeF X i n₀ (transformAttr X (.obj i) a f kwf true) (fun r => r = .obj i) := by
-  unfold transformAttr
+  rw [transformAttr_eq_core hX]; unfold transformAttrCore
   refine (getInst_safe _).toF.bind (fun p _ => ?_)
   split
   · exact SafeF.throwPy _
@@ -527,7 +527,7 @@ theorem withAttr_cow (hX : NoClassDnc X) (hM : MakeSafe n₀ W X) (self : Ref) (
 theorem updateAttr_cow (hX : NoClassDnc X) (hM : MakeSafe n₀ W X) (self : Ref) (a : Nat)
     (v : Ref) (kw : List (Nat × Ref)) :
     Safe n₀ W (updateAttr X self a v kw false) (SelfOrFresh n₀ self) := by
-  unfold updateAttr
+  rw [updateAttr_eq_core hX]; unfold updateAttrCore
   refine (getInst_safe self).bind (fun p _ => ?_)
   split
   · exact Safe.throwPy _
@@ -539,7 +539,7 @@ theorem updateAttr_cow (hX : NoClassDnc X) (hM : MakeSafe n₀ W X) (self : Ref)
 theorem transformAttr_cow (hX : NoClassDnc X) (hM : MakeSafe n₀ W X) (self : Ref) (a : Nat)
     (f : Option Cb) (kwf : List (Nat × Cb)) :
     Safe n₀ W (transformAttr X self a f kwf false) (SelfOrFresh n₀ self) := by
-  unfold transformAttr
+  rw [transformAttr_eq_core hX]; unfold transformAttrCore
   refine (getInst_safe self).bind (fun p _ => ?_)
   split
   · exact Safe.throwPy _
